@@ -278,9 +278,9 @@ PROPS["C13"] = dict(
                  138: "accepted, lowering fails: directive lacks a required field", 139: "accepted, lowering fails: invalid property", 140: "accepted, lowering fails: invalid symbol"},
 )
 PROPS["C17"] = dict(
-    level="proof", runner="C17", needs_tx3c=True, model_files=FRONT_MODEL, proof_files=["Front_proofs.v"], check_files=["Front_check.v"],
-    theorems=["C17_argument_keys_do_not_collide", "C17_lowercase_idempotent", "C17_reported_params_sorted"],
-    partial=["that every name the lowered IR requires is the lower-cased spelling of a declared name is checked per emitted TII (clauses 171, 174), not yet a theorem about Lower.v"],
+    level="proof", runner="C17", needs_tx3c=True, model_files=FRONT_MODEL, proof_files=["Front_proofs.v", "Lower_names.v"], check_files=["Front_check.v"],
+    theorems=["C17_required_keys_are_declared", "C17_argument_keys_do_not_collide", "C17_lowercase_idempotent", "C17_reported_params_sorted"],
+    partial=["the theorems are about Lower.v; that the TII file written by tx3c publishes exactly the lower-cased declared names and embeds the IR that lowering produced is checked per emitted file (clauses 171-174)"],
     trusted_base=FRONT_TB + ["the TII is read from the file written by the tx3c binary built from /repo's current tree"],
     assumptions=[],
     keep_ids=_only(lambda i: i in (1, 2, 3) or 170 <= i < 180),
